@@ -87,6 +87,8 @@ def run(repo, res, tier):
     res.rule("PB-IDENT", "double fields receive plain attribute values", 10)
     res.rule("PB-HAS", "conditionally written optional fields are read under HasField", 8)
     res.rule("PB-NULL", "builders are total on default-constructed objects", 5)
+    res.rule("PB-GUARD", "a value is written whenever it is present: presence tests are None tests, not truthiness of a scalar", 10)
+    res.rule("PB-KEY", "goal lanelets are keyed by the position of their goal state on both sides", 3)
     protos = load_protos(repo)
     w = WriterPB(repo)
     r = ReaderPB(repo)
@@ -262,6 +264,19 @@ def run(repo, res, tier):
                 else:
                     res.check("PB-HAS", "%s.%s written only when present -> read under HasField" % (mname, f), guarded, rmod, read_fields[f][0].node, "%s reads optional %s.%s without HasField" % (fa.cls.name, mname, f), "absent optional data is read back as the field's default value instead of staying absent", qualname=rq)
 
+            # presence guard of scalar values
+            if dom is not None:
+                for fw in fws:
+                    if not fw.source or fw.source.count(".") < 1:
+                        continue
+                    attr = fw.source.split(".")[1].split("[")[0]
+                    tn = eff.attr_types(dom).get(attr, set()) | eff.attr_types(dom).get("_" + attr, set())
+                    scalar = bool(tn & {"bool", "int", "float"}) and not (tn & {"List", "Set", "Dict", "list", "set", "dict", "Tuple", "ndarray"})
+                    if not scalar:
+                        continue
+                    truthy = [(t, pol) for t, pol in fw.guards if pol and t.replace("._", ".") == fw.source.replace("._", ".")]
+                    res.check("PB-GUARD", "%s.%s: presence of %s is not tested by truthiness" % (mname, f, fw.source), not truthy, wmod, fw.node, "%s.%s written only if %s is truthy" % (mname, f, fw.source), "False / 0 / 0.0 are values, not absence: they are dropped on writing and read back as the default", qualname=qn)
+
         # ---------------- PB-NULL (writer totality)
         if dom is not None:
             p = b.params[0]
@@ -327,6 +342,19 @@ def run(repo, res, tier):
                         key = norm(n.slice)
                         ok = ("%s in %s" % (key, norm(n.value)), True) in g
                         res.check("PB-NULL", "%s: %s key present" % (bname, norm(n)), ok, wmod, n, "%s: %s without `%s in ..` test" % (bname, norm(n), key), "the dictionary has entries only for some keys: indexing raises KeyError (or inserts into a defaultdict, changing the object while writing)", qualname=qn)
+    # ---------------- PB-KEY
+    from ..keyrule import goal_table_keys, writer_goal_keys
+
+    ppf = r.factories.get("PlanningProblemFactory")
+    if ppf is None:
+        raise AnalysisError("PlanningProblemFactory missing")
+    for key, node, ok, why in goal_table_keys(ppf.fn):
+        res.check("PB-KEY", "reader files goal lanelets under %s (%s)" % (norm(key), why), ok, rmod, node, "PlanningProblemFactory stores goal lanelets under %s" % norm(key), "goal lanelets are attached to another goal state than the one they were written for: " + why, qualname="PlanningProblemFactory.create_from_message")
+    ppb = w.builders.get("PlanningProblemMessage")
+    if ppb is None:
+        raise AnalysisError("PlanningProblemMessage missing")
+    for node, ok in writer_goal_keys(ppb.fn):
+        res.check("PB-KEY", "writer looks goal lanelets up with the index of the goal state (%s)" % norm(node)[:60], ok, wmod, node, "PlanningProblemMessage consults %s" % norm(node)[:80], "the lanelets written with a goal state are those of another goal state", qualname="PlanningProblemMessage.create_message")
     # the top-level message: every repeated / singular member of CommonRoad is filled by the file writer
     top = protos.message("CommonRoad")
     pw = wmod.classes["ProtobufFileWriter"]
